@@ -20,6 +20,7 @@ import (
 	"fmt"
 	"hash/fnv"
 	"math/rand"
+	"os"
 	"sort"
 	"strconv"
 	"strings"
@@ -309,6 +310,10 @@ func round3Cases(r *rand.Rand, tier string) []string {
 	n := 300
 	if tier == "thorough" {
 		n = 8000
+	}
+	// stress runs of this dimension alone: C13_R3_CASES=<n> (never set by ./check)
+	if v, err := strconv.Atoi(os.Getenv("C13_R3_CASES")); err == nil && v > 0 {
+		n = v
 	}
 	out := make([]string, 0, n)
 	for i := 0; i < n; i++ {
